@@ -457,3 +457,35 @@ def single_leg_rule(cls_target, rule="compute_contracted", sink="contract_nodes"
             bad.append(f"{sink} binds {param} from something else than {rule}()")
     out.append((f"every call of {sink} takes its legs from {rule}() ({ncalls} call sites)", not bad and ncalls > 0, "; ".join(bad)))
     return out
+
+
+def kwargs_forwarded(target, callee="cls"):
+    """The function hands its **kwargs to `callee(...)` unchanged: the dict is never written (no item store or
+    delete, no mutating method, no rebinding) and every `return` is a call of `callee` that spreads it."""
+    mod, cls, obj = resolve(target)
+    fn = fn_ast(obj)
+    kw = fn.args.kwarg.arg if fn.args.kwarg is not None else None
+    if kw is None:
+        return [("the function has a **kwargs parameter", False, "no **kwargs")]
+    writes = []
+    for n in ast.walk(fn):
+        if isinstance(n, (ast.Subscript, ast.Attribute)) and isinstance(n.ctx, (ast.Store, ast.Del)) and isinstance(n.value, ast.Name) and n.value.id == kw:
+            writes.append(f"line {n.lineno}: {ast.unparse(n)}")
+        if isinstance(n, ast.Name) and n.id == kw and isinstance(n.ctx, (ast.Store, ast.Del)):
+            writes.append(f"line {n.lineno}: rebinds {kw}")
+        if (isinstance(n, ast.Call) and isinstance(n.func, ast.Attribute) and isinstance(n.func.value, ast.Name) and n.func.value.id == kw
+                and n.func.attr in ("setdefault", "update", "pop", "popitem", "clear", "__setitem__", "__delitem__")):
+            writes.append(f"line {n.lineno}: {ast.unparse(n)[:60]}")
+        if isinstance(n, ast.Call) and not (isinstance(n.func, ast.Name) and n.func.id == callee):
+            # handing the dict itself to another function could mutate it
+            if any(isinstance(a, ast.Name) and a.id == kw for a in n.args) or any(isinstance(k.value, ast.Name) and k.value.id == kw and k.arg is not None for k in n.keywords):
+                writes.append(f"line {n.lineno}: {kw} escapes into {ast.unparse(n.func)}")
+    rets = [n for n in ast.walk(fn) if isinstance(n, ast.Return)]
+    bad_ret = [f"line {r.lineno}" for r in rets if not (
+        isinstance(r.value, ast.Call) and isinstance(r.value.func, ast.Name) and r.value.func.id == callee
+        and [k for k in r.value.keywords if k.arg is None and isinstance(k.value, ast.Name) and k.value.id == kw]
+        and not [k for k in r.value.keywords if k.arg is not None])]
+    return [
+        (f"**{kw} is never written before it is forwarded", not writes, "; ".join(writes)),
+        (f"every return is {callee}(..., **{kw}) with no keyword of its own ({len(rets)} returns)", bool(rets) and not bad_ret, "; ".join(bad_ret)),
+    ]
